@@ -52,4 +52,50 @@ def compact (limit : Nat) (src : SVal) : Acc :=
   | .bkt _ ents => walkEnts limit [] ents { dst := .bkt 0 [], size := 0, commits := 0, err := none }
   | .val _ => { dst := .bkt 0 [], size := 0, commits := 0, err := none }
 
+/-! ### the destination calls, transaction by transaction
+
+`compact` above threads the destination CONTENT; the functions below produce the CALLS `Compact`
+makes on the destination, grouped by destination transaction, so that they can be replayed —
+through the real API by the harness, through the bucket-tree model by `C15Bkt`. -/
+
+/-- a call `Compact` makes on the destination; paths are relative to the root bucket -/
+inductive DstCall
+  | put (path : List Bytes) (k v : Bytes)
+  | createBucket (path : List Bytes) (k : Bytes)
+  | setSequence (path : List Bytes) (n : Nat)
+deriving Repr, DecidableEq
+
+mutual
+/-- all calls, in the order `walk` makes them -/
+def dstCalls (path : List Bytes) : Ents → List DstCall
+  | [] => []
+  | (k, .val v) :: rest => .put path k v :: dstCalls path rest
+  | (k, .bkt s e) :: rest =>
+    .createBucket path k :: .setSequence (path ++ [k]) s :: (dstCalls (path ++ [k]) e ++ dstCalls path rest)
+end
+
+structure TxAcc where
+  size : Nat                   -- bytes in the current destination transaction
+  done : List (List DstCall)   -- committed transactions, oldest first
+  cur : List DstCall           -- calls of the current transaction
+
+/-- the callback's size accounting: commit first when the limit would be exceeded -/
+def txVisit (limit : Nat) (a : TxAcc) (sz : Nat) (cs : List DstCall) : TxAcc :=
+  if a.size + sz > limit ∧ limit ≠ 0 then { size := sz, done := a.done ++ [a.cur], cur := cs }
+  else { size := a.size + sz, done := a.done, cur := a.cur ++ cs }
+
+mutual
+def txEnts (limit : Nat) (path : List Bytes) : Ents → TxAcc → TxAcc
+  | [], a => a
+  | (k, .val v) :: rest, a => txEnts limit path rest (txVisit limit a (k.length + v.length) [.put path k v])
+  | (k, .bkt s e) :: rest, a =>
+    txEnts limit path rest
+      (txEnts limit (path ++ [k]) e (txVisit limit a k.length [.createBucket path k, .setSequence (path ++ [k]) s]))
+end
+
+/-- the destination transactions of `Compact` (the last one is committed at the end) -/
+def compactTxs (limit : Nat) (ents : Ents) : List (List DstCall) :=
+  let a := txEnts limit [] ents { size := 0, done := [], cur := [] }
+  a.done ++ [a.cur]
+
 end Bolt.Compact
